@@ -12,6 +12,7 @@ import GoSandbox.Model.DriverC01
 import GoSandbox.Model.DriverC10
 import GoSandbox.Model.DriverC14
 import GoSandbox.Model.DriverC19
+import GoSandbox.Model.DriverC20
 
 open GoSandbox
 
@@ -29,6 +30,7 @@ def dispatch (ws : List String) : Option String :=
     else if cmd.startsWith "c10." then Driver.C10.handle ws
     else if cmd.startsWith "c14." then Driver.C14.handle ws
     else if cmd.startsWith "c19." then Driver.C19.handle ws
+    else if cmd.startsWith "c20." then Driver.C20.handle ws
     else if cmd.startsWith "c07." then Driver.C07.handle ws
     else none
 
